@@ -52,6 +52,8 @@ def gen_history(rng, n):
             seg = bytes(rng.randrange(256) for _ in range(rng.choice([2, 4, 39, 100])))
             seg = seg[:1024 - off]
             ev.append(("refresh", off, seg))
+            if rng.random() < 0.35:
+                ev.append(("statp", []))
     return ev
 
 
@@ -202,6 +204,10 @@ def run(ctx):
         [("statp", [(2, b"\xaa\xbb")]), ("refresh", 2, b"\x11\x22"), ("statp", [(5, b"\xcc\xdd")])],
         [("statp", [(10, b"\x01\x02")]), ("statp", [(10, b"\x03\x04")]), ("statp", [])],
         [("statp", [(7, b"\x09")]), ("statp", [(7, b"\x08")])],
+        # a refresh overwrites an earlier change, then messages that carry nothing for that position: nothing may come back
+        [("statp", [(100, b"\x55\x66")]), ("refresh", 98, b"\xa1\xa2\xa3\xa4\xa5\xa6"), ("statp", [])],
+        [("statp", [(100, b"\x55\x66"), (300, b"\x01\x02")]), ("refresh", 0, bytes(range(256)) * 4), ("statp", []), ("statp", [(500, b"\x09\x09")])],
+        [("statp", [(40, b"\x11")]), ("refresh", 40, b"\x22\x33"), ("statp", []), ("statp", [(41, b"\x44")])],
     ]
     hists = corpus + [gen_history(rng, rng.randrange(2, 12 if ctx.quick else 40)) for _ in range(nh)]
     for h in hists:
